@@ -49,6 +49,9 @@ func c05Hex(b []byte) string {
 
 const c05Pad = 48
 
+// c05TotalCalls counts entry-point calls of this process (cases run sequentially).
+var c05TotalCalls int
+
 // c05Buf places input (+tail) at the front of a larger allocation whose remaining capacity is
 // filled with the poison octet.
 func c05Buf(input, tail []byte, poison byte) (buf []byte, full []byte) {
@@ -316,7 +319,8 @@ func (e *c05Env) call(entry string, input, tailA, tailB []byte, opts []*Marshall
 		}
 	}
 	// allocation bound on a sample
-	if e.calls%61 == 0 {
+	c05TotalCalls++
+	if c05TotalCalls%61 == 0 {
 		var m0, m1 runtime.MemStats
 		runtime.ReadMemStats(&m0)
 		func() {
